@@ -5,6 +5,7 @@ import sys
 sys.path.insert(0, os.path.dirname(os.path.abspath(__file__)))
 import vlib  # noqa: E402
 import registry  # noqa: E402
+import runner  # noqa: E402
 
 
 def main():
@@ -17,7 +18,7 @@ def main():
         P = importlib.import_module("props." + pid.lower()).PROPERTY
         try:
             P._defaults()
-            P.regen(None)
+            P.regen(runner.Ctx(pid, 'quick', 1))
         except Exception as e:  # noqa
             print("regen %s: %s" % (pid, e))
     targets = []
@@ -35,7 +36,7 @@ def main():
         P = importlib.import_module("props." + pid.lower()).PROPERTY
         P._defaults()
         try:
-            okx, logx = P.prepare(None)
+            okx, logx = P.prepare(runner.Ctx(pid, 'quick', 1))
             if not okx:
                 print("prepare %s failed: %s" % (pid, logx[-800:]))
                 rc = 1
